@@ -8,7 +8,9 @@ import sys
 import tempfile
 import time
 
-from . import core, repo
+from . import core, repo, rngscript
+
+rngscript.install()  # before `probables` is imported anywhere (catches `from random import choice` too)
 
 BUDGET = {"quick": 150.0, "thorough": 3000.0}  # per-shard wall budget (truncation, never a verdict)
 
